@@ -35,6 +35,10 @@ Proof.
   intros Hswo l l' HP Hp. apply (ssort_sorted lt P Hswo). eapply Permutation_Forall; eauto.
 Qed.
 
+Lemma sortQueue_unfold st cp l :
+  sortQueue st cp l = if N.eqb st 1 || cp then go_isort (queue_lt st cp) l else l.
+Proof. unfold sortQueue, queue_lt. destruct (N.eqb st 1), cp; reflexivity. Qed.
+
 (* ---- the sorters as the code runs them (sort.SliceStable, n <= 20: one insertion block) ---- *)
 Theorem sortApps_is_ssort which g l :
   (which <? 4)%N = true -> Forall (fun a => app_ok which g a = true) l ->
